@@ -524,11 +524,12 @@ def r06_6(ctx, prog, crate):
     nz = [c for c in bt.live_calls() if c.callee == "std::num::NonZero::new"]
     if nz:
         ok = False
-        for bi, t, base in tables.discr_switches(bt):
-            if any(s.kind == "call" and s.b == nz[0].bb for s in bt.prov.local_src(base)):
-                arms, otherwise = tables.arm_targets(t)
-                some_t = arms.get(1)
-                ok = some_t is not None and bt.dominates(some_t, sp.bb) and bt.pred[some_t] == [bi]
+        sw_ = tables.switch_on_call_result(bt, nz[0])
+        if sw_ is not None:
+            bi, t = sw_
+            arms, otherwise = tables.arm_targets(t)
+            some_t = arms.get(1)
+            ok = some_t is not None and bt.dominates(some_t, sp.bb) and bt.pred[some_t] == [bi]
         ctx.check(ok, "R06.6", ["spawn", "only-when-missing"], "spawn is not guarded by the missing count being non-zero", sp.line())
     # the sender vector only grows
     bad = ("::remove", "::pop", "::clear", "::truncate", "::swap_remove", "::drain", "::retain", "::dedup", "::split_off")
